@@ -24,6 +24,7 @@ Tie (harness/quad.cpp, which #includes net_model.cpp of the tree under test):
   SOLVEK solve with weights/strengths * 2^k, k over the whole window in which the binary32 assembly is exactly scaled (fs_ok of the Flocq
         model true in both runs): the solution must be bitwise the same (finding F22 on the unrepaired tree)."""
 import json
+import math
 import struct
 from fractions import Fraction
 
@@ -123,7 +124,11 @@ def parse_sys(txt, fr):
             r, c, v = t.split(" ", 2)
             trips.append((int(r), int(c), fr(v)))
     vec = lambda p: [fr(x) for x in p.split(";")] if p else []
-    return {"n": n, "trips": trips, "rhs": vec(parts[2]), "init": vec(parts[3]), "w": vec(parts[4])}
+    ntrips = None
+    if len(parts) >= 7:                                      # what solve() hands to Eigen: check(); normalize(); finalize()
+        ntrips = [(int(t.split(" ", 2)[0]), int(t.split(" ", 2)[1]), fr(t.split(" ", 2)[2])) for t in parts[5].split(";")] if parts[5] else []
+    return {"n": n, "trips": trips, "rhs": vec(parts[2]), "init": vec(parts[3]), "w": vec(parts[4]),
+            "ntrips": ntrips, "nrhs": vec(parts[6]) if len(parts) >= 7 else None}
 
 
 def canon(trips):
@@ -171,6 +176,11 @@ def compare_sys(impl, model, exact, P):
     for i, (a, m) in enumerate(zip(impl["init"], model["init"])):
         if a != m and (exact or abs(a - m) > REL * 2 * P):
             return "initial[%d]: C++ %s model %s" % (i, float(a), float(m))
+    if exact and impl.get("ntrips") is not None and model.get("ntrips") is not None:
+        # the normalised system (MatrixCreator::normalize, exact power-of-two scaling) is compared only in the exact class: with
+        # rounding, max|b| of the C++ and of the Q model may fall on different sides of a power of two
+        if canon(impl["ntrips"]) != canon(model["ntrips"]) or impl["nrhs"] != model["nrhs"]:
+            return "system handed to Eigen after normalize(): C++ rhs %s, model rhs %s" % ([float(x) for x in impl["nrhs"]], [float(x) for x in model["nrhs"]])
     if impl["w"] != model["w"]:
         return "stored net weights: C++ %s model %s" % ([float(x) for x in impl["w"]], [float(x) for x in model["w"]])
     return None
@@ -181,7 +191,7 @@ def normal_equations(b, impl, exact, P):
     documented weighted quadratic objective (with the weights as GIVEN) at a test point; None when it is"""
     nets = netmodel_pins(b)
     nc = b["nc"]
-    nstar = sum(1 for w, p in nets if len(p) > 2) if b["mode"] == 0 else 0
+    nstar = sum(1 for w, p in nets if len(p) > 2 and len({c for c, _ in p}) > 1) if b["mode"] == 0 else 0
     n = nc + nstar
     if impl["n"] != n:
         return "matrix size %d, expected %d unknowns" % (impl["n"], n)
@@ -192,7 +202,7 @@ def normal_equations(b, impl, exact, P):
     touched = [False] * n
     k = nc
     for w, pins in nets:
-        if b["mode"] == 5 or len(pins) <= 2:
+        if b["mode"] == 5 or len(pins) <= 2 or len({c for c, _ in pins}) == 1:      # a net on one cell goes to addBipoint (F25)
             p0, p1 = pins[0], pins[1]
             if p0[0] == p1[0]:
                 continue
@@ -400,13 +410,21 @@ def parse_dump(txt):
 
 def parse_fasm_impl(txt):
     p = [x.strip() for x in txt.split("|")]
-    if len(p) != 5:
+    if len(p) not in (5, 7):
         return None
     trips = [t.split() for t in p[1].split(";")] if p[1] else []
     nan = lambda u: None if (u >> 23) & 0xFF == 0xFF and u & 0x7FFFFF else u          # NaN payloads and signs are not modelled
     hx = lambda q: [nan(int(x, 16)) for x in q.split(";")] if q else []
     return {"n": int(p[0].split()[0]), "pre": int(p[0].split()[1]), "rc": [(int(t[0]), int(t[1])) for t in trips], "vals": [nan(int(t[2], 16)) for t in trips],
-            "rhs": hx(p[2]), "init": hx(p[3]), "w": hx(p[4])}
+            "rhs": hx(p[2]), "init": hx(p[3]), "w": hx(p[4]),
+            # what MatrixCreator::solve hands to Eigen (check(); normalize(); finalize()): same rows/columns, values and rhs
+            "nvals": hx(p[5]) if len(p) == 7 else None, "nrhs": hx(p[6]) if len(p) == 7 else None}
+
+
+def single_cell_star_net(b, kind=None):
+    """finding F25: a net of more than two pins, all on one cell, in a model that creates star points (createStar(topo), Star, LightStar;
+    SOLVE kinds 0 and 5 go through createStar(topo))"""
+    return (b["mode"] in (0, 2, 4) or kind in (0, 5)) and any(len(pins) > 2 and len({c for c, _ in pins}) == 1 for _, pins in netmodel_pins(b))
 
 
 def nonfinite_bits(u):
@@ -441,6 +459,8 @@ def float_tie(ctx, harness, count, diffs, concrete, only=None, ccount=0):
         todo.append((l, k, b, runs))
         exprs.append(gal_sys(b, nets, st))
         exprs.append(gal_sys(b, [(w * f, p) for w, p in nets], [s * f for s in st]))
+        exprs.append(gal_sys(b, nets, st, wrap="fsys_dump (fsolver_input (%s))"))
+        exprs.append(gal_sys(b, [(w * f, p) for w, p in nets], [s * f for s in st], wrap="fsys_dump (fsolver_input (%s))"))
         info["modes"][b["mode"]] = info["modes"].get(b["mode"], 0) + 1
         count_coincidences(info, b, l)
     res = common.vm_eval("C17f", "From Coq Require Import List ZArith. From Flocq Require Import Core BinarySingleNaN. Import ListNotations. "
@@ -450,9 +470,10 @@ def float_tie(ctx, harness, count, diffs, concrete, only=None, ccount=0):
         info.pop("collapsed", None)
         return info
     for j, (l, k, b, runs) in enumerate(todo):
-        mods = [parse_dump(res[2 * j]), parse_dump(res[2 * j + 1])]
-        if None in mods:
-            diffs.append((l, "binary32 model output not understood: " + res[2 * j][:120], "", False)); continue
+        mods = [parse_dump(res[4 * j]), parse_dump(res[4 * j + 1])]
+        nmods = [parse_dump(res[4 * j + 2]), parse_dump(res[4 * j + 3])]
+        if None in mods or None in nmods:
+            diffs.append((l, "binary32 model output not understood: " + res[4 * j][:120], "", False)); continue
         bad = None
         # a value of the C++ system that is infinite or NaN where the binary32 model of the assembly, on the same finite inputs, computes
         # only finite values (no overflow anywhere): a real violation with this case as the failing input
@@ -478,6 +499,16 @@ def float_tie(ctx, harness, count, diffs, concrete, only=None, ccount=0):
                     i = next((i for i in range(min(len(r[key]), len(m[key]))) if r[key][i] != m[key][i]), -1)
                     bad = bad or "%s, %s[%d]: C++ %s, binary32 model %s" % (name, key, i, r[key][i] if i >= 0 else len(r[key]), m[key][i] if i >= 0 else len(m[key]))
             info["values_compared_bit_for_bit"] += len(r["vals"]) + len(r["rhs"]) + len(r["init"])
+        for name, r, m in (("weights*1", runs[0], nmods[0]), ("weights*2^%d" % k, runs[1], nmods[1])):
+            if r["nvals"] is not None and (r["nvals"] != m["vals"] or r["nrhs"] != m["rhs"]):     # normalize(): QuadFloat.fnormalize
+                key, mk = ("nvals", "vals") if r["nvals"] != m["vals"] else ("nrhs", "rhs")
+                i = next((i for i in range(min(len(r[key]), len(m[mk]))) if r[key][i] != m[mk][i]), -1)
+                bad = bad or "%s, system handed to Eigen after normalize(), %s[%d]: C++ %s, binary32 model %s" % (
+                    name, mk, i, r[key][i] if i >= 0 else len(r[key]), m[mk][i] if i >= 0 else len(m[mk]))
+            if r["nvals"] is not None:
+                info["values_compared_bit_for_bit"] += len(r["nvals"]) + len(r["nrhs"])
+        if bad and single_cell_star_net(b) and ctx.known_finding("F25"):
+            continue                                           # the models follow the repaired code (no star point for a net on one cell)
         for name, r, fac in (("weights*1", runs[0], 1), ("weights*2^%d" % k, runs[1], Fraction(2) ** k)):
             given = [f32_encode(w * fac) for w, _ in netmodel_pins(b)]
             if r["w"] != given:
@@ -497,6 +528,13 @@ def float_tie(ctx, harness, count, diffs, concrete, only=None, ccount=0):
             info["cases_with_a_collapsed_3plus_pin_net"] += 1
         if mods[0]["ok"] and mods[1]["ok"]:
             info["side_condition_true_in_both_runs"] += 1
+            # c17_float_solver_input_pow2_identical on the C++ output: with a non-zero right-hand side the two systems handed to Eigen are the same bits
+            if a["nvals"] is not None and any(u is not None and u & 0x7FFFFFFF for u in a["rhs"]):
+                info["solver_input_compared_across_runs"] = info.get("solver_input_compared_across_runs", 0) + 1
+                if a["nvals"] != c["nvals"] or a["nrhs"] != c["nrhs"]:
+                    concrete.append((l, "weights and strengths times 2^%d: after normalize() MatrixCreator::solve does not hand the same system to Eigen "
+                                        "although the assembly is exactly scaled (fs_ok true in both runs, non-zero right-hand side: "
+                                        "c17_float_solver_input_pow2_identical)" % k, impl[lines.index(l)][:300]))
             if exact:
                 info["of_which_scaled_exactly_on_the_cpp"] += 1
             else:
@@ -515,7 +553,8 @@ def float_tie(ctx, harness, count, diffs, concrete, only=None, ccount=0):
 
 # The conjugate gradient is NOT modelled.  Gating stream SOLVEK: every weight and penalty strength times 2^k, for k over the whole window in
 # which the binary32 assembly is exactly scaled (side condition fs_ok of c17_float_assembly_pow2_exact true in both runs, evaluated on the
-# Flocq model inside Coq): there the solver receives (A + D, b, x0) and (2^k A + D, 2^k b, x0) bitwise and the property demands the same
+# Flocq model inside Coq): there, since the repair of F22 (normalize()), the solver receives THE SAME system for both runs
+# (c17_float_solver_input_pow2_identical; before the repair: (A + D, b, x0) and (2^k A + D, 2^k b, x0)) and the property demands the same
 # solution, bit for bit.  Finding F22: Eigen's kernel compares |r|^2 with max(tol^2 |b|^2, FLT_MIN) and computes |b|^2, |r|^2 in binary32,
 # so the unrepaired MatrixCreator::solve is exact only for about -44 <= k <= 52 on this distribution; the repair normalises (A, b) by a power
 # of two.  Witness (corpus/C17): one cell, net to two fixed pins, tolerance 1e-4, k = -64: the solver returns its initial guess 0, not 68.17.
@@ -626,6 +665,8 @@ def check_asm(ctx, lines, impl, model, stats):
             continue
         mrep, mtrunc = m.split(" ## ")
         d = compare_sys(isys, parse_sys(mrep, fr_model), exact, P)
+        if (d or why) and single_cell_star_net(b) and ctx.known_finding("F25"):
+            continue                                           # the models follow the repaired code (no star point for a net on one cell)
         if d:
             f12 = compare_sys(isys, parse_sys(mtrunc, fr_model), exact, P) is None
             diffs.append((l, d, i[:300], f12))
@@ -636,7 +677,72 @@ def check_asm(ctx, lines, impl, model, stats):
     return concrete, diffs
 
 
-def check_solve(lines, impl, stats):
+# ---------------------------------------------------------------- least-squares oracle on SOLVER OUTPUT (SOLVE kind 0 = solveStar(params))
+# The system of createStar(topo) is the normal-equation system of the documented objective: a net of <= 2 pins (or with all pins on one
+# cell) is a two-pin term w (p0 - p1)^2 / 2, a net of n > 2 pins a star  sum_p (w / n) (p - s)^2 / 2  with one extra unknown s.  Both are
+# rebuilt here over the RATIONALS from the case line alone (weights as given), independently of MatrixCreator.
+LS_ULPS = 64      # allowance for binary32 rounding inside the conjugate gradient, in units of 2^-24 of |A||x| + |b|
+
+
+def ls_gradient(b, x, stars, absolute=False):
+    """gradient (= M x - rhs of the full system, star unknowns last) of the objective at cells x, star points `stars`; with
+    absolute=True every term enters with its absolute value (the |A||x| + |b| scale of the rounding allowance)"""
+    nets = netmodel_pins(b)
+    nc = b["nc"]
+    g = [Fraction(0)] * (nc + len(stars))
+    a = abs if absolute else (lambda v: v)
+    pos = lambda p: (x[p[0]] if p[0] >= 0 else 0) + p[1]
+    k = nc
+    for w, pins in nets:
+        if len(pins) <= 2 or len({c for c, _ in pins}) == 1:
+            p0, p1 = pins[0], pins[1]
+            if p0[0] == p1[0]:
+                continue
+            d = (abs(w) * (abs(pos(p0)) + abs(pos(p1)))) if absolute else w * (pos(p0) - pos(p1))
+            if p0[0] >= 0:
+                g[p0[0]] += d
+            if p1[0] >= 0:
+                g[p1[0]] += d if absolute else -d
+        else:
+            ws = w / len(pins)
+            for p in pins:
+                d = (abs(ws) * (abs(pos(p)) + abs(stars[k - nc]))) if absolute else ws * (pos(p) - stars[k - nc])
+                g[k] += d if absolute else -d
+                if p[0] >= 0:
+                    g[p[0]] += d
+            k += 1
+    return g
+
+
+def ls_star_optimum(b, x):
+    """the optimal star point of every star net for the cell positions x: the mean of its pin positions"""
+    pos = lambda p: (x[p[0]] if p[0] >= 0 else 0) + p[1]
+    return [sum(pos(p) for p in pins) / len(pins) for w, pins in netmodel_pins(b)
+            if not (len(pins) <= 2 or len({c for c, _ in pins}) == 1)]
+
+
+def ls_residual(b, tol, xs):
+    """(norm of the reduced residual, bound) of the solver output xs (binary32 cell coordinates) for the star system of body b.
+    Eigen's ConjugateGradient stops when ||rho||_2 <= tol ||rhs||_2 for its recurrence residual rho of the FULL system (normalize() scales
+    matrix and rhs by one power of two: relative quantities are unchanged; the 1e-8 regulariser sits only on rows no net touches, whose
+    residual row is 0).  Eliminating the star unknowns s (optimal s = mean of the pins) gives the residual of the reduced system in the
+    cells alone, r_red = r_c - A_cs A_ss^-1 r_s with ||A_cs A_ss^-1||_2 <= sqrt(#stars).  Hence
+        ||r_red||_2 <= (1 + sqrt(#stars)) * (tol * ||rhs||_2 + LS_ULPS * 2^-24 * || |A||x| + |rhs| ||_2)
+    where the second term allows for the binary32 rounding of the recurrence (measured on 3011 runs of the unchanged tree: the left side is at
+    most 2.9 tol ||rhs||_2 at tol = 1e-6, median 0.006; a solver that is scale-covariant but wrong by a few per cent is off by 1e4 .. 1e6)."""
+    nc = b["nc"]
+    x = [Fraction(v) for v in xs[:nc]]
+    stars = ls_star_optimum(b, x)
+    red = ls_gradient(b, x, stars)[:nc]
+    zero = [Fraction(0)] * nc
+    rhs = ls_gradient(b, zero, [Fraction(0)] * len(stars))
+    scale = ls_gradient(b, x, stars, absolute=True)
+    n2 = lambda v: math.sqrt(float(sum(t * t for t in v)))
+    bound = (1 + math.sqrt(len(stars))) * (float(tol) * n2(rhs) + LS_ULPS * 2.0 ** -24 * n2(scale))
+    return n2(red), bound, n2(rhs), len(stars)
+
+
+def check_solve(lines, impl, stats, ctx=None):
     bad = []
     for l, i in zip(lines, impl):
         toks = l.split()
@@ -650,10 +756,35 @@ def check_solve(lines, impl, stats):
         if count_coincidences(stats.setdefault("solve_stream", {}), b, l):
             stats["solve_with_exact_coincidence"] = stats.get("solve_with_exact_coincidence", 0) + 1
         j = next((j for j, h in enumerate(base.split()) if nonfinite_bits(int(h, 16))), None)
+        if j is not None and ctx is not None and single_cell_star_net(b, kind) and ctx.known_finding("F25"):
+            continue                                           # a star point on a net whose pins are all on one cell: singular system
         if j is not None:
             bad.append((l, "the solver returns a non-finite coordinate although every weight, strength, offset and position of the case is finite: "
                            "x[%d] has bits %s (%r)" % (j, base.split()[j], floats(base.split()[j])[0])))
             continue
+        if kind == 0:
+            # the least-squares clause on the solver's OUTPUT (two-pin and star terms, exact rational residual): a solution that is
+            # scale-covariant but wrong is caught here
+            xs0 = floats(base)
+            res, bound, nrhs, nstar = ls_residual(b, tol, xs0)
+            ls = stats.setdefault("least_squares_oracle", {"solutions_checked": 0, "with_star_nets": 0, "zero_rhs": 0, "max_residual_over_bound": 0.0,
+                                                           "perturbed_solutions_tried": 0, "perturbed_solutions_rejected": 0})
+            ls["solutions_checked"] += 1
+            ls["with_star_nets"] += 1 if nstar else 0
+            ls["zero_rhs"] += 1 if nrhs == 0 else 0
+            if bound > 0:
+                ls["max_residual_over_bound"] = max(ls["max_residual_over_bound"], res / bound)
+            if not res <= bound:
+                bad.append((l, "solveStar returns x = %s which is not the least-squares optimum of the documented objective: the exact residual of the "
+                               "normal equations (star points eliminated) has norm %g > %g = (1 + sqrt(%d stars)) (tol %g * |rhs| %g + %d * 2^-24 * | |A||x| + |rhs| |)"
+                            % (xs0[:8], res, bound, nstar, float(tol), nrhs, LS_ULPS)))
+                continue
+            if anchored(b) and nrhs > 0 and xs0:
+                # discrimination: the same solution with cell 0 moved by 1 % of the coordinate span must be REJECTED by the oracle
+                pert = list(xs0); pert[0] = f32(pert[0] + 0.01 * float(2 * pmax(b)))
+                r2, b2, _, _ = ls_residual(b, tol, pert)
+                ls["perturbed_solutions_tried"] += 1
+                ls["perturbed_solutions_rejected"] += 1 if r2 > b2 else 0
         for f, p in zip((2, 0.25, 1024, "2^-20", "2^-24"), parts[1:4] + parts[6:8]):
             if p != base:
                 x1, xk = floats(base), floats(p)
@@ -778,6 +909,7 @@ def run(ctx):
     for s in seeds:
         asm += common.harness_gen(harness, ["asm", s, (4000 if q else 60000) // len(seeds)])
         solve += common.harness_gen(harness, ["solve", s, (1500 if q else 30000) // len(seeds)])
+        solve += common.harness_gen(harness, ["self", s, (150 if q else 3000) // len(seeds)])      # nets with all pins on one cell, no penalty (F25)
         place += common.harness_gen(harness, ["place", s, (40 if q else 600) // len(seeds)])
         # accepted parameter values other than the defaults: global.noise exactly 0, every checked field at its accepted bounds
         place += common.harness_gen(harness, ["placep", s, (N_PLACEP_Q if q else 3000) // len(seeds)])
@@ -789,11 +921,16 @@ def run(ctx):
     impl, model, _ = common.run_both([harness, "run"], [driver], asm, chunk=250)
     concrete, diffs = check_asm(ctx, asm, impl, model, stats)
     simpl, _, _ = common.run_both([harness, "run"], None, solve, chunk=200)
-    sbad = check_solve(solve, simpl, stats)
+    sbad = check_solve(solve, simpl, stats, ctx)
+    lso = stats.get("least_squares_oracle", {})
+    if not lso.get("solutions_checked") or (lso.get("perturbed_solutions_tried") and not lso.get("perturbed_solutions_rejected")):
+        # the residual oracle was never evaluated, or it accepts solutions moved by 1 % of the span: it decides nothing
+        ctx.violation("the least-squares oracle on the solver output is not effective in this run: %s" % lso,
+                      {"broken": "checks/c17.py ls_residual (residual oracle of SOLVE kind 0)", "statistics": lso}, found_input=False)
     pimpl, _, _ = common.run_both([harness, "run"], None, place, chunk=3)
     pbad = check_place(place, pimpl, stats)
     fdiffs, fconcrete = [], []
-    finfo = float_tie(ctx, harness, 60 if q else 600, fdiffs, fconcrete, ccount=N_FCOIN_Q if q else 400)
+    finfo = float_tie(ctx, harness, 45 if q else 600, fdiffs, fconcrete, ccount=N_FCOIN_Q if q else 400)
     kbad, cginfo = check_solvek(ctx, harness, [l for l in solve if l.startswith("SOLVE ")][:(20 if q else 300)], 6 if q else 12, stats)
     sbad += kbad
     concrete += fconcrete
@@ -864,9 +1001,11 @@ def run(ctx):
         "placeGlobal: only the first lower-bound placement is compared for non-dyadic factors, later steps take discrete decisions)" % (len(solve), len(place), SOLVE_TOL),
         "power-of-two clause: PROVED for the assembly in binary32 under the side condition fs_ok (no overflow, no rounded intermediate at or below "
         "2^-126) in both runs; for the conjugate gradient (not modelled) it is VALIDATED by the SOLVE/PLACE runs (factors 2^-24 .. 2^10) and by the "
-        "SOLVEK runs for k over the whole window in which fs_ok holds in both runs (cg_scale_window_measured); finding F22: without the "
-        "normalisation of (A, b) in MatrixCreator::solve, Eigen's absolute threshold FLT_MIN and its binary32 squared norms limit the exactness "
-        "of the solve to about -44 <= k <= 52",
+        "SOLVEK runs for k over the whole window in which fs_ok holds in both runs (cg_scale_window_measured); finding F22 (FIXED on /repo main by 7251876, "
+        "MatrixCreator::normalize()): before the repair Eigen's absolute threshold FLT_MIN and its binary32 squared norms limited the exactness "
+        "of the solve to about -44 <= k <= 52; a tree without the normalisation is reported as a violation",
+        "only the SCALING clause is validated on solver / placer output: there is no residual or least-squares-optimum oracle on what solveStar / solve / solveWithPenalty / placeGlobal return "
+        "(normal_equations checks the assembled system at one point); a scale-covariant but wrong solver would pass the SOLVE / SOLVEK / PLACE checks",
         "model tied to the code by comparison on the cases of this run"])
 
 
